@@ -47,9 +47,16 @@ Proof.
   - rewrite He. symmetry. apply dot_cf_ext. apply cf_strip0.
 Qed.
 
+Lemma ferr_parcor s m : fobs_eqb (FErr s) m = true ->
+  (if String.eqb s "ParCorError" then match m with Err ParCorError => true | _ => false end else true) = true.
+Proof.
+  destruct m as [[a e]|x]; simpl; [discriminate|]. intro H. apply String.eqb_eq in H. subst.
+  destruct x; reflexivity.
+Qed.
+
 Lemma corr_lev_holds c : corr_lev c = true -> holds_lev c = true.
 Proof.
-  unfold corr_lev, holds_lev. destruct (l_obs c) as [n e|s]; [|reflexivity].
+  unfold corr_lev, holds_lev. destruct (l_obs c) as [n e|s]; [|apply ferr_parcor].
   intro H. apply fobs_eqb_ok in H as (a & Hm & ->).
   destruct (l_order c) as [p|].
   - apply strip_transfer. apply levinson_spec. exact Hm.
@@ -107,7 +114,7 @@ Qed.
 
 Lemma corr_kac_holds c : corr_kac c = true -> holds_kac c = true.
 Proof.
-  unfold corr_kac, holds_kac. destruct (a_obs c) as [n e|s]; [|reflexivity].
+  unfold corr_kac, holds_kac. destruct (a_obs c) as [n e|s]; [|apply ferr_parcor].
   intro H. apply fobs_eqb_ok in H as (a & Hm & ->). cbv zeta.
   destruct (a_order c) as [p|].
   - apply kac_complete. apply kautocor_spec. exact Hm.
